@@ -3,7 +3,7 @@
 # For every out/k: confirm (suite green with patch, demo fails with / passes without),
 # run the quick check of the property named in README (PROP:) against the patch, and
 # store it as seeded/<PROP>-<next letter>/ with a meta.json (needs_to_manifest to be edited).
-root=$1
+root=$1; round=${2:-2}
 V="$(cd "$(dirname "$0")/.." && pwd)"
 for d in $root/out/*/; do
   k=$(basename $d)
@@ -15,11 +15,11 @@ for d in $root/out/*/; do
   for l in a b c d e f g h i j k l m n; do [ -e $V/seeded/$prop-$l ] || break; done
   id=$prop-$l
   mkdir -p $V/seeded/$id; cp $d/patch.diff $d/demo_test.go $d/README.md $V/seeded/$id/
-  python3 - "$id" "$prop" "$pkg" "$conf" "$res" <<'PY'
+  python3 - "$id" "$prop" "$pkg" "$conf" "$res" "$round" <<'PY'
 import json,sys
-id,prop,pkg,conf,res=sys.argv[1:6]
+id,prop,pkg,conf,res,rnd=sys.argv[1:7]
 caught = "VIOLATION" in res
-json.dump({"id":id,"breaks_property":prop,"round":2,"written_by":"independent sub-agent given only the property text and a scratch worktree",
+json.dump({"id":id,"breaks_property":prop,"round":int(rnd),"written_by":"independent sub-agent given only the property text and a scratch worktree",
  "demo":"demo_test.go, to be placed in package directory '%s' of the repository (go test -run TestDemo ./%s/)"%(pkg,pkg),
  "needs_to_manifest":"(see README.md)",
  "confirmed_by_me":"lib/confirm_seed.sh: "+conf,
